@@ -60,7 +60,8 @@ StreamStep(x, c) ==
                     ELSE dist' = dist /\ run' = run0 /\ st' = "None"
 (* user reset(): everything starts over with a new reference window; the total is kept *)
 StreamReset == /\ since' = 0 /\ st' = "None" /\ tree' = NoTree /\ refbuf' = <<>> /\ testn' = 0 /\ run' = 0
-               /\ crit' = "None" /\ clo' = "None" /\ chi' = "None" /\ dist' = "None" /\ UNCHANGED <<dcfg, total, pending>>
+               /\ crit' = "None" /\ clo' = "None" /\ chi' = "None" /\ dist' = "None" /\ pending' = <<>>      \* (a batch that drifted is dropped with the rest)
+               /\ UNCHANGED <<dcfg, total>>
 
 (* ------------------------------------------------------------------ batch *)
 SetReference(q, c) ==
